@@ -25,7 +25,7 @@ ROLLS = ["none", "lanczos", "fft", "linear", "prefilter", None, "custom"]
 QS = [10.0, 0.6, 5.0, 25.0, 50.5]
 SRS_ = [100.0, 1000.0, 200.0, 50.0, 1.0e4]
 MAXCPU = [14, None, 0, 1, 2, 3, 100]
-CPUS = [4, 1, 2, 3, 5, 6, 8, 16, 64, 7]
+CPUS = [4, 1, 2, 3, 5, 6, 8, 16, 64, 7, 2, 3]
 FDE_FIELDS = [
     "freq",
     "psd",
@@ -137,7 +137,7 @@ def gen_case(ch):
         eqsine = ch.flip(1, 4, "eqsine")
         getresp = False if large else ch.flip(1, 2, "getresp")
         q = QS[ch.draw(len(QS), "Q")]
-        par = "auto" if (large or ch.flip(1, 10, "auto")) else "yes"
+        par = "auto" if (large or ch.flip(1, 40, "auto")) else "yes"
         maxcpu = MAXCPU[ch.draw(len(MAXCPU), "maxcpu")]
         sr_none = n == 1 and ic != "zero" and ch.flip(1, 2, "sr_none")
 
@@ -224,8 +224,8 @@ def gen_case(ch):
 def gen_sched_cfg(ch, target):
     cfg = {}
     cfg["cpu_count"] = CPUS[ch.draw(len(CPUS), "cpu_count")]
-    cfg["preempt"] = [(0, 1), (1, 20), (3, 10), (1, 1)][ch.weighted([2, 3, 3, 2], "preempt_cfg")]
-    cfg["sticky"] = [1, 4, 16][ch.draw(3, "sticky")]
+    cfg["preempt"] = [(0, 1), (1, 20), (3, 10), (1, 1)][ch.weighted([1, 2, 4, 3], "preempt_cfg")]
+    cfg["sticky"] = [1, 4, 16, 1][ch.draw(4, "sticky")]
     cfg["weights"] = [[4], [1, 4, 16], [1, 16]][ch.draw(3, "speeds")]
     cfg["progress"] = not ch.flip(1, 4, "noprogress")
     cfg["parent_preempt"] = (1, 4) if ch.flip(1, 5, "parent_preempt_on") else None
